@@ -173,6 +173,8 @@ class C16(object):
             if d % 5 == 0:
                 spec["handover"] = True
                 spec["root"]["conv"] = "value"
+            if (d // 125) % 3 == 0:
+                spec["stack_probe"] = True  # every task asks debug.format_asynq_stack() when it starts
             if (d // 5) % 5 == 0:
                 # user code inside the scheduler loop raises: the computation is given up with
                 # whatever it had in flight (e.g. a suspended deduplicated call) left behind
@@ -180,8 +182,10 @@ class C16(object):
             progs.append(spec)
         if rng.random() < 0.3:
             progs.insert(rng.randint(0, len(progs)), {"aio_thread": True, "n_yields": rng.randint(1, 4), "templates": []})
-        return {"programs": progs, "seed": rng.randint(0, 10 ** 9), "p_switch": rng.choice([0.002, 0.01, 0.05, 0.2]),
+        case = {"programs": progs, "seed": rng.randint(0, 10 ** 9), "p_switch": rng.choice([0.002, 0.01, 0.05, 0.2]),
                 "perf": rng.random() < 0.5, "same_thread_names": rng.random() < 0.3}
+        case["ctx_threads"] = case["seed"] % 3 == 0
+        return case
 
     def sample(self, case, r):
         return {"threads": len(case["programs"]), "p_switch": case["p_switch"], "perf": case["perf"],
@@ -236,7 +240,13 @@ class C16(object):
                 finally:
                     sys.settrace(None)
                     baton.finish(me)
-            threads = [threading.Thread(target=body, args=(i,), name=tnames[i]) for i in range(len(progs))]
+            if case.get("ctx_threads"):
+                # workers started the way asyncio.to_thread / executors with context propagation
+                # start them: each inside a copy of the parent's contextvars context
+                import contextvars
+                threads = [threading.Thread(target=contextvars.copy_context().run, args=(body, i), name=tnames[i]) for i in range(len(progs))]
+            else:
+                threads = [threading.Thread(target=body, args=(i,), name=tnames[i]) for i in range(len(progs))]
             for i, t in enumerate(threads):
                 t.sim_id = names[i]
             for t in threads:
